@@ -335,6 +335,45 @@ def _stmt_of(fn, node):
     return None
 
 
+def _shaped_like(y, x):
+    """(value term, True) when y is a value given the shape of x: broadcast_to(v, x.shape), full(x.shape, v), full_like(x, v), v * ones_like(x), v + zeros_like(x)"""
+    shapes = (("attr", x, "shape"), ("call", G("numpy.shape"), (x,), ()))
+    if y[0] == "call" and y[1] == G("numpy.broadcast_to") and len(y[2]) == 2 and y[2][1] in shapes:
+        return y[2][0], True
+    if y[0] == "call" and y[1] == G("numpy.full") and len(y[2]) == 2 and y[2][0] in shapes:
+        return y[2][1], True
+    if y[0] == "call" and y[1] == G("numpy.full_like") and len(y[2]) == 2 and y[2][0] == x:
+        return y[2][1], True
+    if y[0] == "bin" and y[1] in "*+":
+        unit = ("call", G("numpy.ones_like" if y[1] == "*" else "numpy.zeros_like"), (x,), ())
+        if y[2] == unit:
+            return y[3], True
+        if y[3] == unit:
+            return y[2], True
+    return y, False
+
+
+_LINES_POSITIVE = """
+def f(ax):
+    ax.get_lines()[0].set_marker("x")
+    if len(ax.lines) > 1:
+        ax.lines[1].remove()
+    ax.get_lines()[-1].set_marker("o")
+    ax.lines[n].remove()
+"""
+
+
+def _absolute_line_indices(tree):
+    """subscripts ax.get_lines()[k] / ax.lines[k] with a constant k >= 0: the k-th line of the axes, whoever drew it"""
+    out = []
+    for n in ast.walk(tree):
+        if isinstance(n, ast.Subscript) and isinstance(n.slice, ast.Constant) and isinstance(n.slice.value, int) and n.slice.value >= 0:
+            v = n.value
+            if isinstance(v, ast.Attribute) and v.attr == "lines" or isinstance(v, ast.Call) and isinstance(v.func, ast.Attribute) and v.func.attr == "get_lines":
+                out.append(n)
+    return out
+
+
 def others(prog, rep):
     # dependence functions
     q = f"{PL}.plot_dependence_functions"
@@ -342,12 +381,19 @@ def others(prog, rep):
     rep.analysed(fn)
     b = builder(prog, fn, inline=False)
     plots = find_calls(fn, b, lambda t, n: t[0] == "call" and t[1][0] == "attr" and t[1][2] == "plot")
-    ok = False
+    ok = shaped = False
     if len(plots) == 1:
         a = plots[0][2][2]
-        ok = len(a) >= 2 and a[1][0] == "call" and a[1][2] == (a[0],) and a[1][1][0] == "sub" and a[1][1][1][0] == "attr" and a[1][1][1][2] == "conditional_parameters"
+        if len(a) >= 2:
+            y, shaped = _shaped_like(a[1], a[0])
+            ok = y[0] == "call" and y[2] == (a[0],) and y[1][0] == "sub" and y[1][1][0] == "attr" and y[1][1][2] == "conditional_parameters"
     rep.check(ok, "C20.others", f"{q}:curve", fn.where(plots[0][0]) if plots else fn.where(), "plot(x, dep_func(x)) of the model's own dependence function",
               "the curve must be dep_func(x) of the model's own conditional_parameters evaluated at the plotted x")
+    # a dependence function may return one value for all x (a constant parameter: def const(x, a=0.3): return a - fit, pdf, contours and the other
+    # plots work with it); ax.plot(x, scalar) raises 'x and y must have same first dimension'
+    rep.check(shaped, "C20.others", f"{q}:curve:constant", fn.where(plots[0][0]) if plots else fn.where(), "the plotted values are broadcast to the shape of x",
+              "plot_dependence_functions(model) with 'sigma': DependenceFunction(const), const(x, a=0.3) = a, raised ValueError: x and y must have same first dimension, "
+              "shapes (50,) and (1,); nothing is drawn although the model is legitimate: broadcast dep_func(x) to x.shape (a horizontal line)")
     sc = find_calls(fn, b, lambda t, n: t[0] == "call" and t[1][0] == "attr" and t[1][2] == "scatter")
     ok = False
     if len(sc) == 1:
@@ -478,6 +524,14 @@ def others(prog, rep):
             and x[1] in (("call", G("numpy.asarray"), (P("sample"),), ()), P("sample")) and kw.get("fit") == ("const", False)
     rep.check(ok, "C20.others", f"{q}:probplot", fn.where(pp[0][0]) if pp else fn.where(), "probplot(sample[:, dim], dist=Wrapper(model, dim), fit=False)",
               "each Q-Q plot must compare column dim of the sample with the marginal of the SAME dim of the model")
+    # the axes may be the caller's (axes=...) and hold lines already: the lines probplot adds are not lines 0 and 1 of the axes then
+    if len(_absolute_line_indices(ast.parse(_LINES_POSITIVE))) != 2:
+        raise AnalysisError("C20: the built-in positive example of absolute line indices is no longer reported")
+    absolute = _absolute_line_indices(fn.node)
+    rep.check(not absolute, "C20.others", f"{q}:own-lines", fn.where(absolute[0]) if absolute else fn.where(),
+              "the lines styled / removed after probplot are found relative to the lines the axes held before",
+              "ax.get_lines()[0] / ax.lines[1] are the first lines of the AXES: with axes=axs that already hold a line (ax.axhline(1.0)) the sample's Q-Q points were removed "
+              "(ax.lines[1].remove()) and the caller's line restyled instead; count the lines before probplot and index from there")
 
 
 def read(prog, rep):
